@@ -6,6 +6,8 @@ import LbzVerif.Spec.Mtf
 import LbzVerif.Model.MtfDec
 import LbzVerif.Lemmas.MtfOne
 import LbzVerif.Lemmas.MtfRun
+import LbzVerif.Lemmas.MtfInit
+import LbzVerif.Props.C01.Mtf
 
 namespace LbzVerif.Props.C05.Mtf
 open LbzVerif LbzVerif.Model.MtfDec LbzVerif.Lemmas.MtfOne LbzVerif.Lemmas.MtfRun
@@ -93,5 +95,43 @@ example : ∃ st0, initRun (slideOf ([97, 98, 99] ++ List.replicate 253 0)) = so
     ⟨List.replicate 253 0, by rw [abs_slideOf _ (by rw [List.length_append, List.length_replicate]; rfl)]⟩ 900000 (by decide)
     [1, 2, 3, 0, 0, 3, 4] (by decide)
   exact ⟨st0, e1, e2.trans (by decide)⟩
+
+/-- C05/C06, whole stage: for every strictly ascending non-empty set `used`
+of bytes in use, every bzip2-numbered symbol sequence over the alphabet
+`0 … |used|+1` and every capacity `limit ≤ MAX_BLOCK_SIZE`, the model of
+`retrieve()`'s MTF-value stage — bitmap loop filling `imtf_slide[CMAP_BASE…]`,
+row set-up, `runChar = imtf_row[0][0]`, then the symbol loop over the sliding
+lists — returns `ok out` exactly when the reference `unMtfRle2` returns
+`some out`, with the same bytes; otherwise it returns overflow / unterminated
+(never `ub`, see `C08.tt_write_bound`) exactly when the reference rejects. -/
+theorem retrieveSyms_sound (used : List UInt8) (hs : used.Pairwise (· < ·)) (h1 : 1 ≤ used.length)
+    (limit : Nat) (hl : limit ≤ Gen.MAX_BLOCK_SIZE) (syms : List Nat)
+    (hsyms : ∀ s ∈ syms, s ≤ used.length + 1) :
+    toOpt (retrieveSyms (Model.MtfEnc.inuseOf used) syms limit) =
+      Spec.Mtf.unMtfRle2 used syms limit :=
+  Lemmas.MtfInit.retrieveSyms_spec used hs h1 limit hl syms hsyms
+
+/-- Model compressor stage followed by model decompressor stage is the
+identity: what `do_mtf` emits for a block over `used` (≤ `limit` ≤ 900000
+bytes) is decoded by the sliding-list decoder to exactly that block. -/
+theorem retrieve_doMtf (used block : List UInt8) (hs : used.Pairwise (· < ·))
+    (h1 : 1 ≤ used.length) (hmem : ∀ x ∈ block, x ∈ used)
+    (limit : Nat) (hl : limit ≤ Gen.MAX_BLOCK_SIZE) (hfit : block.length ≤ limit) :
+    ∃ syms, Model.MtfEnc.doMtf used block = some syms ∧
+      toOpt (retrieveSyms (Model.MtfEnc.inuseOf used) syms limit) = some block := by
+  obtain ⟨syms, e1, e2⟩ := Props.C01.Mtf.un_mtf used block limit hs hmem hfit
+  refine ⟨syms, e1, ?_⟩
+  rw [retrieveSyms_sound used hs h1 limit hl syms, e2]
+  -- every emitted symbol is in the alphabet: otherwise the reference would reject
+  intro s hsm
+  rw [Props.C01.Mtf.doMtf_eq_spec used block hs hmem] at e1
+  have e1' := Option.some.inj e1
+  subst e1'
+  exact Lemmas.MtfInit.mtfRle2_le used block hmem s hsm
+
+example : toOpt (retrieveSyms (Model.MtfEnc.inuseOf [97, 98, 99]) [1, 2, 3, 0, 0, 3, 4] 900000) =
+    some [97, 97, 98, 99, 99, 99, 99, 97] :=
+  (retrieveSyms_sound [97, 98, 99] (by decide) (by decide) 900000 (by decide) _ (by decide)).trans
+    (by decide)
 
 end LbzVerif.Props.C05.Mtf
